@@ -41,7 +41,8 @@ def design_configs(prop: str, tier: str) -> list[tuple[str, dict]]:
                 ('L4-d2', cfg(4, 11, 4, PLAIN, '0..11', '{"plain"}', 2, False)),
                 ('L5-d2', cfg(5, 12, 3, PLAIN, '{0,1,4,5,6,9,10,11,12}', '{"plain"}', 2, False))]
     if tier == 'quick':
-        return [('L2-sizes-d2', cfg(2, 5, 2, MIXED, '0..5', '{"plain","onenl","allnl"}', 2, False))]
+        return [('L2-sizes-d2', cfg(2, 4, 2, MIXED, '0..4', '{"plain","onenl","allnl"}', 2, False)),
+                ('L3-sizes-d2', cfg(3, 6, 1, MIXED, '{0,3,5,6}', '{"plain","onenl"}', 2, False))]
     return [('L2-sizes-d3', cfg(2, 5, 1, MIXED, '0..5', '{"plain","onenl","allnl"}', 3, False)),
             ('L3-sizes-d2', cfg(3, 7, 2, MIXED, '0..7', '{"plain","onenl","allnl"}', 2, False))]
 
@@ -277,6 +278,10 @@ def main(prop: str, tier: str) -> int:
             if kind in kinds or (kind == 'first' and 'last' in kinds):
                 rep.violation(f'suite-trace/{clause}', {'what': f'a store used by the repository\'s tests was rejected by '
                                                                 f'TokenSeqTrace at event {step}: {clause}', 'trace': st['traces'][ti]})
+    # B3 source (iii): store traces of composed model-level histories (all edit kinds interleaved)
+    from checks import compose
+    comp = compose.run(rep, tier, prop)
+    comp.pop('sample', None)
     # sensitivity (b): a corrupted trace must be rejected
     victims = [t for t in traces if len(t['events']) >= 2 and len(t['events'][-1]['row']) >= 2][:20]
     if victims:
@@ -324,12 +329,12 @@ def main(prop: str, tier: str) -> int:
 
     rep.cov.update({
         'states': states, 'transitions': transitions,
-        'traces_validated_against_impl': replayed + tv['accepted'] + len(tv['rejected']) + suite_info.get('validated', 0),
+        'traces_validated_against_impl': replayed + tv['accepted'] + len(tv['rejected']) + suite_info.get('validated', 0) + comp.get('store_traces', 0),
         'behaviours_replayed': replayed, 'replay_steps': steps,
         'recorded_traces_validated': tv['accepted'] + len(tv['rejected']), 'recorded_events': tv['events'],
         'trace_tlc_states': tv['tlc_states'],
         'drift': drift, 'drift_samples': drift_samples,
-        'design_checks': design, 'sensitivity': sens, 'repository_suite_traces': suite_info,
+        'design_checks': design, 'sensitivity': sens, 'repository_suite_traces': suite_info, 'composed_history_traces': comp,
         'samples': samples + ([{'recorded_trace': traces[0]}] if traces else []),
         'exhaustive': True,
         'rule': 'TLC enumerates every call sequence of BlockStore.tla within the listed constants; '
